@@ -168,6 +168,8 @@ func (b *Broker) connect(
 	key string,
 	proxy func(context.Context, *slog.Logger) error,
 ) {
+	verifPoint(ctx, "admit", dir, key)
+	defer verifPoint(ctx, "done", dir, key)
 	b.mu.Lock()
 	defer b.mu.Unlock()
 
@@ -288,6 +290,7 @@ func (b *Broker) connect(
 	connection and unlock b for now.
 	We'll lock it again befor we exit. */
 	b.key = key
+	verifPoint(ctx, "attached", dir, key)
 	b.mu.Unlock()
 
 	/* Actually do the proxy. */
@@ -308,6 +311,7 @@ func (b *Broker) connect(
 
 	/* Relock B, which will be unlocked by a defer, above, and start the
 	shell disconnecting. */
+	verifPoint(ctx, "release", dir, key)
 	b.mu.Lock()
 	b.key = ""
 	*cancelUs = nil
